@@ -79,6 +79,9 @@ func c10Input(r *gen.R) []string {
 	if r.Chance(1, 10) {
 		in = append(in, "")
 	}
+	if r.Chance(1, 8) { // words beyond what the token index can describe are words all the same
+		in = append(in, strings.Repeat("a", 256), strings.Repeat("é", 255), strings.Repeat("long", 80))
+	}
 	if r.Chance(1, 6) { // twin of a twin
 		w := in[r.Intn(len(in))]
 		in = append(in, oracle.Title(w), strings.ToUpper(w))
